@@ -30,6 +30,7 @@ PROPS = {
             {"lane": "unpack-faults", "quick": 12, "thorough": 40},
             {"lane": "builder-faults", "quick": 40, "thorough": 400},
             {"lane": "builder", "quick": 600, "thorough": 10000},
+            {"lane": "pack-faults", "quick": 12, "thorough": 60},
         ],
         "trusted_base": [STDLIB, FSMODEL, BUILDERMODEL],
         "assumptions": ["fault model of the reader: the stream fails (error or clean truncation) at a byte offset; fh.Close() errors inside Unpack cannot be injected through an io.Reader and are outside the property's fault model"],
@@ -51,6 +52,23 @@ PROPS = {
         "trusted_base": ["net/url is a parameter of the model (every policy check is made on what the URL parser returned, so soundness holds for ANY parser function)", "tables regenerated from the source on every run: source types, git schemes and query keys, archive values and suffixes, shorthand prefixes, whether MakeRemoteSource checks user info (Generated/Remote.lean)"],
         "assumptions": ["completeness ('every documented-valid address is accepted') is proved at the level of the URL record (C07_complete_partial); that url.Parse produces such a record for the documented grammar is checked by the lane's valid-grammar stream"],
         "explanation": "C07_sound_parse (for any URL parser and any string, an accepted address satisfies the declarative Policy and carries no user info), C07_sound_make (constructor route), C07_case (type and scheme are lower-cased before lookup), C07_complete_partial / C07_complete_parse_partial, C07_front_shorthand (github.com / gitlab.com expansion). Tie: 'addr' lane: field-wise comparison of accepted values with the model + independent Go policy predicate on every accepted value of every route.",
+    },
+    "C18": {
+        "lanes": [
+            {"lane": "bundle", "quick": 3000, "thorough": 100000},
+        ],
+        "trusted_base": [STDLIB, "address/version/registry-package parsers are parameters of the model (BundleOracle); on the lane the real parsers answer for exactly the strings in the manifest; encoding/json as an identity on the manifest structure"],
+        "assumptions": ["the bundle root is an absolute clean path; sub-paths handed to lookups are valid sub-paths (the address types guarantee it: C19_normalize_valid)"],
+        "explanation": "C18_refuse (a package directory named '', '.', '..' or containing a separator makes OpenDir fail, whatever the parsers say), C18_dirs_valid, C18_inside / C18_inside_registry (every lookup of an opened bundle lies strictly inside the root; component-level form C18_inside_segs), C18_roundtrip / C18_roundtrip_back / C18_alias_same_path (path -> (directory, sub-path) -> path is the identity, for any alias), C18_not_in_bundle* . Tie: 'bundle' lane: OpenDir on generated and mutated manifests, every lookup and SourceForLocalPath over 14 path shapes, compared with the model and the containment/inversion oracle.",
+    },
+    "C09": {
+        "lanes": [
+            {"lane": "bundle-roundtrip", "quick": 120, "thorough": 3000},
+            {"lane": "bundle", "quick": 1000, "thorough": 20000},
+        ],
+        "trusted_base": [BUILDERMODEL, FSMODEL, "encoding/json as an identity on the manifest structure; the archive round trip is Pack(dereference) followed by Unpack, whose models are tied by the pack/unpack lanes (C02, C15); ChecksumV1 is a function of the manifest bytes, which the lane compares"],
+        "assumptions": ["metadata strings are valid UTF-8 (JSON replaces invalid bytes); a commit message stored with an empty commit id is not kept (C09_cex_meta_dropped: the manifest keeps metadata only with a commit id)"],
+        "explanation": "C09_reopen_partial / C09_reopen_tables_partial: opening the manifest written from the builder's final tables yields exactly those tables (package -> directory, metadata with a commit id, resolved versions -> source address, deprecations), for parsers that read printed keys back (C06) and distinct keys (each package is fetched once: C14). Counterexamples C09_cex_meta_dropped, C09_cex_shadowed. Tie: 'bundle-roundtrip' lane re-opens every finished bundle and archives + extracts it elsewhere, comparing all accessors, checksum, root-relative lookups and the recursive tree listing.",
     },
     "C19": {
         "lanes": [
@@ -109,6 +127,8 @@ PROPS = {
     "C03": {
         "lanes": [
             {"lane": "ignore", "quick": 4000, "thorough": 120000},
+            {"lane": "pack", "quick": 1500, "thorough": 40000},
+            {"lane": "sanitise", "quick": 1500, "thorough": 40000},
         ],
         "trusted_base": [STDLIB,
                          "Go regexp engine restricted to the five fragments compile emits (lit, [^/]*, [^/], (.*/)?, .*) is modelled by matchT; bufio.ScanLines, strings.TrimSpace modelled",
